@@ -6,6 +6,7 @@ use std::collections::HashMap;
 
 pub mod c09;
 pub mod c09_real;
+pub mod c13;
 pub mod c14;
 pub mod c16;
 pub mod c17;
@@ -24,6 +25,7 @@ pub struct Check {
 pub fn registry() -> Vec<Check> {
     vec![
         Check { id: "C09", run: c09::run, replay: c09::replay, worker: None },
+        Check { id: "C13", run: c13::run, replay: c13::replay, worker: None },
         Check { id: "C14", run: c14::run, replay: c14::replay, worker: None },
         Check { id: "C16", run: c16::run, replay: c16::replay, worker: None },
         Check { id: "C17", run: c17::run, replay: c17::replay, worker: Some(c17::worker) },
